@@ -84,7 +84,12 @@ void h_link_import (void) {
   vp_ul_arr[0] = 0; vp_used_label.els_num = 0; vp_used_label.size = 2; vp_used_label.varr = vp_ul_arr; used_label_p = &vp_used_label;
   vp_mtl_arr[0] = &vp_mod; vp_mtl.els_num = 1; vp_mtl.size = 2; vp_mtl.varr = vp_mtl_arr; vp_mtl.alloc = &vp_alloc; modules_to_link = &vp_mtl;
   DLIST_INIT (MIR_item_t, vp_mod.items);
-  vp_imp.item_type = MIR_import_item; vp_imp.u.import_id = vp_key; vp_imp.module = &vp_mod; vp_imp.addr = NULL; vp_imp.ref_def = NULL;
+  vp_imp.item_type = MIR_import_item; vp_imp.u.import_id = vp_key; vp_imp.module = &vp_mod;
+  /* the module may have been linked before (relinking): the import may carry an old binding - to this entry, whose
+     address has been replaced since (MIR_load_external rebinds in place), or to another item */
+  static struct MIR_item vp_stale;
+  int prev = nondet_int ();
+  vp_imp.addr = prev ? nondet_ptr () : NULL; vp_imp.ref_def = prev == 0 ? NULL : prev == 1 ? vp_T_env : &vp_stale;
   DLIST_APPEND (MIR_item_t, vp_mod.items, &vp_imp);
   int with_resolver = nondet_int ();
   vp_resolved = nondet_ptr ();
@@ -196,3 +201,73 @@ void h_add_item (void) {
   if (have) REACH ("existing"); else REACH ("first");
   REACH ("end");
 }
+
+#ifdef VP_LINK_VALUES
+/* (d) C14: the value MIR_link stores for a ref / expr data item.  The item has been placed by
+   load_bss_data_section (load_addr points into its section); the interpreter run of the expr function is a
+   model that delivers an arbitrary result.  The bytes stored are the referenced item's address plus disp,
+   resp. the result in the function's declared result type. */
+static MIR_val_t vp_res;
+static unsigned vp_interp_calls;
+static void vp_model_interp (MIR_context_t ctx, MIR_item_t func_item, MIR_val_t *results, size_t nargs, ...) {
+  (void) ctx; (void) func_item; (void) nargs;
+  vp_interp_calls++;
+  results[0] = vp_res;
+}
+MIR_val_t nondet_val (void);
+int64_t nondet_i64 (void);
+/* exact byte copy for the small symbolic lengths used here (CBMC's built-in memcpy with a symbolic length into a
+   union object lost the write) */
+void *memcpy (void *d, const void *s, size_t n) {
+  __CPROVER_assert (n <= 16, "model: memcpy of at most one scalar");
+  for (size_t i = 0; i < 16; i++) if (i < n) ((char *) d)[i] = ((const char *) s)[i];
+  return d;
+}
+static void run_link_values (int kind) {
+  MIR_context_t ctx = &vp_ctx;
+  vp_ctx_setup (); vp_T_env = vp_T_mod = NULL;
+  curr_module = NULL; ctx->simplify_ctx = &vp_simplify;
+  vp_ul_arr[0] = 0; vp_used_label.els_num = 0; vp_used_label.size = 2; vp_used_label.varr = vp_ul_arr; used_label_p = &vp_used_label;
+  vp_mtl_arr[0] = &vp_mod; vp_mtl.els_num = 1; vp_mtl.size = 2; vp_mtl.varr = vp_mtl_arr; vp_mtl.alloc = &vp_alloc; modules_to_link = &vp_mtl;
+  DLIST_INIT (MIR_item_t, vp_mod.items);
+  static struct MIR_item it, target, fitem; static struct MIR_ref_data ref; static struct MIR_expr_data ex;
+  static struct MIR_func f; static MIR_type_t rt[1];
+  static union { uint64_t w[2]; int8_t i8; int16_t i16; int32_t i32; int64_t i64; float f; double d; long double ld; void *a; } cell;
+  cell.w[0] = cell.w[1] = 0xAAAAAAAAAAAAAAAAull;
+  it.module = &vp_mod; it.data = NULL;
+  target.addr = nondet_ptr (); __CPROVER_assume (target.addr != NULL);
+  int t = nondet_int (); __CPROVER_assume (t >= MIR_T_I8 && t <= MIR_T_P && t != MIR_T_BLK); rt[0] = (MIR_type_t) t;
+  f.nres = 1; f.res_types = rt; f.expr_p = 1; fitem.item_type = MIR_func_item; fitem.u.func = &f;
+  vp_res = nondet_val ();
+  if (kind) { it.item_type = MIR_ref_data_item; it.u.ref_data = &ref; ref.name = NULL; ref.ref_item = &target; ref.disp = nondet_i64 (); ref.load_addr = &cell; }
+  else { it.item_type = MIR_expr_data_item; it.u.expr_data = &ex; ex.name = NULL; ex.expr_item = &fitem; ex.load_addr = &cell; }
+  DLIST_APPEND (MIR_item_t, vp_mod.items, &it);
+  vp_wf = 1;
+  MIR_link (ctx, NULL, NULL);
+  if (kind) {
+    ENS (cell.a == (void *) ((char *) target.addr + ref.disp), "a ref data item holds the address of the referenced item plus its displacement");
+    ENS (vp_interp_calls == 0, "no expression is evaluated for a ref item");
+    ENS (cell.w[1] == 0xAAAAAAAAAAAAAAAAull, "nothing is written past the item");
+    REACH ("ref");
+  } else {
+    ENS (vp_interp_calls == 1, "the expression function is evaluated once");
+    size_t sz = (t == MIR_T_I8 || t == MIR_T_U8) ? 1 : (t == MIR_T_I16 || t == MIR_T_U16) ? 2 : (t == MIR_T_I32 || t == MIR_T_U32 || t == MIR_T_F) ? 4 : t == MIR_T_LD ? 16 : 8;
+    switch (t) {
+    case MIR_T_I8: case MIR_T_U8: ENS (cell.i8 == (int8_t) vp_res.i, "an 8-bit expr item holds the low byte of the result"); break;
+    case MIR_T_I16: case MIR_T_U16: ENS (cell.i16 == (int16_t) vp_res.i, "a 16-bit expr item holds the low 16 bits of the result"); break;
+    case MIR_T_I32: case MIR_T_U32: ENS (cell.i32 == (int32_t) vp_res.i, "a 32-bit expr item holds the low 32 bits of the result"); break;
+    case MIR_T_I64: case MIR_T_U64: ENS (cell.i64 == vp_res.i, "a 64-bit expr item holds the result"); break;
+    case MIR_T_F: { float x = vp_res.f; ENS (cell.i32 == *(int32_t *) &x, "a float expr item holds the float result"); break; }
+    case MIR_T_D: ENS (cell.i64 == vp_res.i, "a double expr item holds the double result"); break;
+    case MIR_T_LD: ENS (cell.ld == vp_res.ld || (cell.ld != cell.ld && vp_res.ld != vp_res.ld), "a long double expr item holds the long double result"); break;
+    default: ENS (cell.a == vp_res.a, "a pointer expr item holds the pointer result"); break;
+    }
+    if (sz < 16) ENS (cell.w[1] == 0xAAAAAAAAAAAAAAAAull, "nothing is written past the item");
+    if (sz < 8) ENS ((cell.w[0] >> (8 * sz)) == (0xAAAAAAAAAAAAAAAAull >> (8 * sz)), "nothing is written past the item");
+    REACH ("expr");
+  }
+}
+/* concrete item kind per entry: a symbolic item_type would make every arm of MIR_link's dispatch feasible */
+void h_link_values_ref (void) { run_link_values (1); }
+void h_link_values_expr (void) { run_link_values (0); }
+#endif
